@@ -72,6 +72,30 @@ def _outline_ast(headers, rows, tpl, bg_text):
                         'children': [{'background': bg}, {'scenario': sc}]}, 'comments': []}
 
 
+def outline_ast_late(headers, rows, tpl, where):
+    """Placeholders only late in the outline: plain name, first a step with a doc string without media type, then a step with a plain
+    table, then the step that carries the template (in its text / cell / doc string)."""
+    ast = _outline_ast(headers, rows, 'plain', 'bg')
+    sc = ast['feature']['children'][1]['scenario']
+    s0, s1 = sc['steps']
+    s0['text'] = 'plain'
+    s0['dataTable']['rows'][0]['cells'][0]['value'] = 'plain'
+    s1['docString'] = {'location': {'line': 8, 'column': 1}, 'content': 'plain', 'delimiter': '"""'}
+    last = {'id': '3x', 'location': {'line': 9, 'column': 1}, 'keyword': 'Then ', 'keywordType': 'Outcome', 'text': tpl if where == 'text' else 'plain'}
+    if where == 'cell':
+        last['dataTable'] = {'location': {'line': 10, 'column': 1}, 'rows': [{'id': '3y', 'location': {'line': 10, 'column': 1}, 'cells': [{'location': {'line': 10, 'column': 1}, 'value': tpl}]}]}
+    elif where == 'content':
+        last['docString'] = {'location': {'line': 10, 'column': 1}, 'content': tpl, 'delimiter': '```'}
+    # ids: give the extra nodes numbers after all others
+    n = P.max_id(ast) + 1
+    if 'dataTable' in last:
+        last['dataTable']['rows'][0]['id'] = str(n)
+        n += 1
+    last['id'] = str(n)
+    sc['steps'] = [s1, s0, last]
+    return ast
+
+
 def subst(s, headers, values):
     for h, v in zip(headers, values):
         s = s.replace('<' + h + '>', v)
@@ -110,6 +134,9 @@ def run_case(headers, rows, tpl, acc, single_targets=False):
         for only in TARGETS:
             a2 = outline_ast(headers, rows, tpl, 'bg', only=only)
             check_ast(a2, acc, {'kind': 'ast', 'ast': a2, 'headers': headers, 'rows': rows, 'template': tpl, 'only': only})
+        for where in ('text', 'cell', 'content'):
+            a3 = outline_ast_late(headers, rows, tpl, where)
+            check_ast(a3, acc, {'kind': 'ast', 'ast': a3, 'headers': headers, 'rows': rows, 'template': tpl, 'late': where})
     want = subst(tpl, headers, rows[0])
     if want != tpl:
         acc.nontrivial += 1
